@@ -478,8 +478,9 @@ def h_mon_box(ctx, mod, q, fn, c, kind):
     arrows = [a for k_, a in ev.captured if a.f["_scan"] is False]
     if not arrows and ev.unlocatable:
         return ["slice boundary cannot be placed: %s" % ev.unlocatable[0]], "one-box"
-    if not arrows:
+    if not arrows and not ev.captured:
         raise AnalysisError("%s: the unscanned cat.Arrow(...) could not be evaluated (skipped: %s)" % (q, ev.skipped[:3]))
+    # (an arrow built WITH the scan is checked when it is built: nothing to discharge for it)
     for a in arrows:
         probs += check_arrow_RI(a, ev.facts)
         lays = [p.value for p in a.f["boxes"].parts if isinstance(p, Item)]
@@ -493,7 +494,7 @@ def h_mon_box(ctx, mod, q, fn, c, kind):
         if not (owner.f["dom"].same(a.f["dom"], ev.facts) and owner.f["cod"].same(a.f["cod"], ev.facts)):
             probs.append("box typed %r -> %r inside layers typed %r -> %r" % (owner.f["dom"], owner.f["cod"], a.f["dom"], a.f["cod"]))
     if cap:
-        if not (cap["dom"].same(cap["layers"].f["dom"], ev.facts) and cap["cod"].same(cap["layers"].f["cod"], ev.facts)):
+        if cap["layers"] is not None and not (cap["dom"].same(cap["layers"].f["dom"], ev.facts) and cap["cod"].same(cap["layers"].f["cod"], ev.facts)):      # without layers= the constructor scans
             probs.append("RI2: Diagram typed %r -> %r over layers %r -> %r" % (cap["dom"], cap["cod"], cap["layers"].f["dom"], cap["layers"].f["cod"]))
         bx = [p.value for p in cap["boxes"].parts]
         of = [p.value for p in cap["offsets"].parts]
